@@ -63,14 +63,16 @@ def flipOrd : Ordering → Ordering
 
 /-- `rowLess` as a three-way comparison over the sort configuration. A row lacking the binding
     compares as equal. -/
+def keyOrd (S : Strs) (k : Bytes) (desc : Bool) (a b : Row) : Ordering :=
+  let o := match a.get k, b.get k with
+    | some x, some y => (compareCells S x y).getD .eq
+    | _, _ => .eq
+  if desc then flipOrd o else o
+
 def compareRows (S : Strs) : List (Bytes × Bool) → Row → Row → Ordering
   | [], _, _ => .eq
   | (k, desc) :: rest, a, b =>
-    let o := match a.get k, b.get k with
-      | some x, some y => (compareCells S x y).getD .eq
-      | _, _ => .eq
-    let o := if desc then flipOrd o else o
-    match o with
+    match keyOrd S k desc a b with
     | .eq => compareRows S rest a b
     | o => o
 
